@@ -11,7 +11,8 @@ use textwrap::LineEnding;
 pub const VOCAB: &[&str] = &[
     "a", "I", "to", "be", "or", "not", "foo", "bar", "baz", "wrap", "text", "line", "hello", "world!", "Lorem", "ipsum", "question",
     "unfortunately", "café", "naïve", "über", "你好", "世界", "日本語", "😂", "e-mail", "tic-tac-toe", "a/b", "don't", "x-y", "3.14", "1,5",
-    "(paren)", "end.", "yes?", "a#b", "c>d", "x*", "y+", "q/", "é", "ß", "Ｈ", "ᄀ",
+    "(paren)", "end.", "yes?", "a#b", "c>d", "x*", "y+", "q/", "é", "ß", "Ｈ", "ᄀ", ",bar", ".x", ";s", ":c", "=x", "~t", "_u", "@h", "&and", "!x", "%p", "$5", "^c",
+    "|p", "\\b", "'q", "\"d", "<l", "[b", "]b", "{c", "}c", "`t", "?w", ")r", "state-of-the-art", "well-known", "self-contained",
 ];
 
 pub fn gen_paragraph(r: &mut Rng) -> String {
